@@ -496,11 +496,44 @@ def r3_record_layout(ctx, rule, scope='all'):
     for q in ((OIO + '_load_ngrams', OSC + '_load_omen') if scope != 'pcfg' else ()):
         fn = ctx.fn(q)
         n += 1
-        txt = U(fn)
-        if 'int(line[0])' in txt and 'line[1]' in txt and "split('\\t')" in txt:
-            ctx.ok(rule, q, 'level = int(field 0), n-gram = field 1')
+        # which field becomes the level (int(...)) and which the n-gram, whatever the fields are called: split('\t') gives fields
+        # 0 / 1, partition('\t') gives 0 / 2; fields may be indexed or unpacked
+        verdicts = []
+        for n_ in walk_local(fn):
+            if not (isinstance(n_, ast.Assign) and isinstance(n_.value, (ast.Call, ast.Name))):
+                continue
+            v_ = n_.value
+            kind = None
+            if isinstance(v_, ast.Call) and isinstance(v_.func, ast.Attribute) and v_.func.attr in ('split', 'partition') and v_.args \
+                    and const(v_.args[0]) == '\t':
+                kind = v_.func.attr
+            if kind is None:
+                continue
+            ng_idx = 1 if kind == 'split' else 2
+            tgt = n_.targets[0]
+            lvl_src, ng_src = None, None
+            if isinstance(tgt, ast.Name):
+                lvl_src, ng_src = '%s[0]' % tgt.id, '%s[%d]' % (tgt.id, ng_idx)
+                # a later unpacking of the fields: a, b = fields
+                for m_ in walk_local(fn):
+                    if isinstance(m_, ast.Assign) and isinstance(m_.targets[0], ast.Tuple) and isinstance(m_.value, ast.Name) and m_.value.id == tgt.id \
+                            and len(m_.targets[0].elts) == ng_idx + 1 and all(isinstance(e, ast.Name) for e in m_.targets[0].elts):
+                        lvl_src, ng_src = m_.targets[0].elts[0].id, m_.targets[0].elts[ng_idx].id
+            elif isinstance(tgt, ast.Tuple) and len(tgt.elts) == ng_idx + 1 and all(isinstance(e, ast.Name) for e in tgt.elts):
+                lvl_src, ng_src = tgt.elts[0].id, tgt.elts[ng_idx].id
+            if lvl_src is None:
+                continue
+            txt = U(fn)
+            lvl_ok = ('int(%s)' % lvl_src) in txt
+            lvl_wrong = ('int(%s)' % ng_src) in txt
+            ng_used = ng_src in txt.replace('int(%s)' % ng_src, '')
+            verdicts.append((lvl_ok and ng_used and not lvl_wrong, lvl_wrong, lvl_src, ng_src))
+        if verdicts and all(v[0] for v in verdicts):
+            ctx.ok(rule, q, 'level = int(field 0), n-gram = the field after the TAB', {'fields': [(v[2], v[3]) for v in verdicts]})
+        elif any(v[1] for v in verdicts):
+            ctx.bad(rule, q, 'OMEN reader field use', 'level TAB n-gram expected: the level is the field BEFORE the TAB', None, fn)
         else:
-            ctx.bad(rule, q, 'OMEN reader field use', 'level TAB n-gram expected', None, fn)
+            ctx.unk(rule, q, 'the TAB-separated fields of the OMEN reader are not recognised')
     ctx.floor(rule, 'Rules/<name>', n, {'all': 10, 'omen': 6, 'pcfg': 3}[scope], 'record writer/reader sites')
 
 
